@@ -146,6 +146,15 @@ Theorem C11_end_to_end : forall paths G roots ocs ps,
 Proof. exact orderer_end_to_end. Qed.
 Print Assumptions C11_end_to_end.
 
+(* "cycles are refused" made exact: the schema-parse error is raised for a class that reaches
+   itself and for nothing else. *)
+Theorem C11_refusal_exact : forall paths G roots ocs ps,
+  get_object_classes paths G roots = Some ocs -> dep_pairs paths G ocs = Some ps ->
+  (forall a b, In a ocs -> In b ocs -> class_name G a = class_name G b -> a = b) ->
+  (orderer paths G roots = OSchemaParseError <-> exists c, In c ocs /\ reach paths G c c).
+Proof. exact orderer_refusal_exact. Qed.
+Print Assumptions C11_refusal_exact.
+
 Theorem C11_unique_names_checker : forall G ocs, uniq_namesb G ocs = true ->
   forall a b, In a ocs -> In b ocs -> class_name G a = class_name G b -> a = b.
 Proof. exact uniq_namesb_sound. Qed.
